@@ -24,6 +24,26 @@ theorem intLt_eq (a b : Int) : intLt a b = decide (a < b) := rfl
 theorem intEq_eq (a b : Int) : intEq a b = decide (a = b) := rfl
 theorem stEq_eq (a b : PState) : stEq a b = decide (a = b) := rfl
 
+/-- `disable()` always answers True: `all(i.disable() for i in …)` never stops early, it is the plain loop -/
+theorem nicsQuant_all_disable (sc on : Bool) (cs : List Nic) :
+    nicsQuant .all sc on .disable cs = (cs.map Nic.disable, true) := by
+  induction cs with
+  | nil => rfl
+  | cons c cs ih => simp [nicsQuant, nicCall, ih]
+
+/-- over a list comprehension every interface is called, whatever the answers: the interfaces afterwards are the plain loop's -/
+theorem nicsQuant_nosc_enable (q : Quant) (on : Bool) (cs : List Nic) :
+    (nicsQuant q false on .enable cs).1 = cs.map (Nic.enable on) := by
+  induction cs with
+  | nil => rfl
+  | cons c cs ih => simp [nicsQuant, nicCall, ih]
+
+theorem nicsQuant_nosc_disable (q : Quant) (on : Bool) (cs : List Nic) :
+    (nicsQuant q false on .disable cs).1 = cs.map Nic.disable := by
+  induction cs with
+  | nil => rfl
+  | cons c cs ih => simp [nicsQuant, nicCall, ih]
+
 /-- unfold the interpreter on the (concrete) translated body into an `if`-tree over opaque conditions, then the conditions
 and the model's function into tests of the node's fields, split every `if` on both sides, close each leaf by
 simplification and linear arithmetic -/
@@ -31,7 +51,8 @@ macro "prog_equiv" "[" ds:Lean.Parser.Tactic.simpLemma,* "]" : tactic =>
   `(tactic| (
     simp only [$ds,*, runBody, exec, bindR_running, bindR_returned, bindR_ite, Procs.call]
     all_goals (try simp only [$ds,*, BExpr.eval, IExpr.eval, Cmp.eval, svcApply, appApply, startUpActions, shutDownActions,
-      enableNics, disableNics, setSt, Node.isOn, intLe_eq, intLt_eq, intEq_eq, stEq_eq])
+      enableNics, disableNics, setSt, Node.isOn, intLe_eq, intLt_eq, intEq_eq, stEq_eq,
+      nicsQuant_all_disable, nicsQuant_nosc_enable, nicsQuant_nosc_disable])
     all_goals (repeat' split)
     all_goals (first | rfl | (simp_all <;> omega) | grind)))
 
